@@ -249,6 +249,57 @@ fn parse_streams(args: &Args, search: bool) -> Report {
     px.rep
 }
 
+/// search mode, directed stream for Url::query_pairs_mut (Coq: C02_form_query_clean / C02_qpm_Canon).
+/// form_urlencoded::Serializer writes into the URL's query WITHOUT passing through the parser's query state, so
+/// the result is a fixpoint of re-parsing only while every byte the serializer leaves unescaped is also left
+/// alone by the query percent-encode sets of both scheme kinds.  A change of byte_serialized_unchanged (or of a
+/// query encode set) changes the regenerated model exactly as it changes the implementation, so the
+/// correspondence cannot see it; here the property is evaluated on the implementation alone: for every ASCII
+/// byte c, query_pairs_mut().append_pair(c, c) (and append_key_only / extend_pairs with c) on a special, a
+/// non-special and a file URL, with and without an existing query and fragment.
+/// Failing inputs are reported as histories ("hist <start> ;; qpm ..."), which the replay mode re-runs.
+fn directed_qpm(rep: &mut Report) {
+    use verif_harness::urlops::{impl_op_result, Op, QOp};
+    let starts = ["http://h/", "a://h/", "file:///p", "https://u:p@h:8080/p?a=b#f", "a:/p?q", "a:o"];
+    for s in starts.iter() {
+        let u = match impl_parse(None, s).1 {
+            Some(u) => u,
+            None => continue,
+        };
+        for c in 0u8..128 {
+            let t = (c as char).to_string();
+            let sessions = [
+                vec![QOp::AppendPair(t.clone(), t.clone())],
+                vec![QOp::AppendKeyOnly(t.clone())],
+                vec![QOp::Clear, QOp::ExtendPairs(vec![(t.clone(), "v".to_string()), ("k".to_string(), t.clone())])],
+            ];
+            for (i, ops) in sessions.iter().enumerate() {
+                let op = Op::Qpm(i != 1, ops.clone());
+                rep.evaluations += 1;
+                let case = format!("hist {} ;; {}", hexs(s), op.token());
+                match impl_op_result(&op, &u).1 {
+                    Some(a) => {
+                        if let Some(w) = prop_c02(&a) {
+                            if rep.failures.len() < 20 {
+                                rep.failures.push((case, format!("query_pairs_mut session with the byte {:?}: {}", c as char, w)));
+                            }
+                        }
+                    }
+                    None => {
+                        if rep.failures.len() < 20 {
+                            rep.failures.push((case, format!("query_pairs_mut session with the byte {:?} panics", c as char)));
+                        }
+                    }
+                }
+            }
+        }
+    }
+    rep.exhaustive.push(format!(
+        "directed query_pairs_mut: {} start URLs x 128 ASCII bytes x 3 sessions (append_pair(c,c); append_key_only(c); clear + extend_pairs), prop_c02 evaluated on the implementation",
+        starts.len()
+    ));
+}
+
 fn merge(mut a: Report, b: Report) -> Report {
     a.evaluations += b.evaluations;
     for (k, v) in b.streams {
@@ -341,7 +392,9 @@ fn main() {
     let rep = match args.mode.as_str() {
         "corr" => merge(parse_streams(&args, false), guarded_hist(&args, false)),
         "search" => {
-            let p = parse_streams(&args, true);
+            let mut d = Report::new();
+            directed_qpm(&mut d);
+            let p = if d.failures.is_empty() { merge(d, parse_streams(&args, true)) } else { d };
             if p.failures.is_empty() {
                 merge(p, guarded_hist(&args, true))
             } else {
